@@ -18,18 +18,19 @@ circuits are compared with on every run):
   starting from the state the previous one left.
 
 The merging of variables by the compiler (`mux_envs`) is modelled for the core fragment
-(Model/BitSem.lean: scalars, `if`, `&&` / `||`, blocks, `let`, `let mut`, assignment to a variable):
+(Model/BitSem.lean: scalars, `if`, `match` on scalars, `&&` / `||`, blocks, `let`, `let mut`,
+assignment to a variable):
 
 * `C14_compiled_scope`, `C14_compiled_stmts_scope`: the compiled code keeps the scope stack — after
   an expression exactly the same variables (names, types, order) are in scope, statements only add
-  their own bindings in front; so the two environments merged after an `if` always line up;
+  their own bindings in front; so the environments merged after an `if` or the arms of a `match` always line up;
 * `C14_merge`: the variable-by-variable merge of two such environments is the environment of the
   branch taken;
-* `C14_compiled_state`: after any statements of the fragment — assignments inside branches, inside
+* `C14_compiled_state`: after any statements of the fragment — assignments inside branches, inside match arms, inside
   the right operand of `&&` / `||`, inside nested blocks with shadowing — the wires of every
   variable in scope carry exactly the value the source semantics give it.
 
-Outside that fragment (aggregates, accessors, `match`, loops, calls) the merging is tied to these
+Outside that fragment (aggregates, accessors, `match` on aggregates, loops, calls) the merging is tied to these
 semantics by the correspondence run (programs that return every visible variable).
 -/
 namespace GV
